@@ -59,7 +59,7 @@ def plan(tier, seed):
     specs.extend(big.specs(tier, seed, 'C10'))
     meta = dict(
         rule=RULE,
-        require=['big_histories', 'history_queries', 'undeclare_calls',
+        require=['big_histories', 'huge_histories', 'history_queries', 'undeclare_calls',
                  'support_results', 'count_results', 'count_refusals',
                  'pick_iter_results', 'pick_results', 'assignments_checked',
                  'autoref_results'],
